@@ -981,6 +981,11 @@ func (e *Engine) builtin(fr *frame, name string, args []Value, c *ssa.CallCommon
 		e.progPanicAt(fr, "panic: "+e.describe(args[0]))
 	case "print", "println":
 		return nil
+	case "ssa:wrapnilchk":
+		if p, ok := args[0].(PtrVal); ok && p.C == nil {
+			e.progPanicAt(fr, "value method called using nil pointer")
+		}
+		return args[0]
 	case "min", "max":
 		panic(engineErr("builtin %s not modelled", name))
 	}
